@@ -45,3 +45,13 @@ pub open spec fn go_tag(key: Seq<char>, f: RustField) -> Seq<char> { " `json:\""
 /// KNOWN FINDING kf-c04-scala-default (recorded, pinned by the snapshot test_serde_default_struct): for a non-Option field with
 /// serde(default) the Scala back end writes `name: T = _` instead of an optional member; the contract is silent exactly on this class
 pub open spec fn kf_scala_default(f: RustField) -> bool { f.has_default && !is_opt(f.ty) }
+
+/// Python (pydantic): ` = Field(alias="key", default=None)` - the alias when the member name differs from the wire name, `default=None`
+/// exactly for optional members; nothing when neither applies
+pub open spec fn py_decorators(aliased: bool, key: Seq<char>, opt: bool) -> Seq<Seq<char>> {
+    (if aliased { seq!["alias=\""@ + key + "\""@] } else { Seq::<Seq<char>>::empty() }) + (if opt { seq!["default=None"@] } else { Seq::<Seq<char>>::empty() })
+}
+pub open spec fn py_suffix(aliased: bool, key: Seq<char>, opt: bool) -> Seq<char> {
+    let d = py_decorators(aliased, key, opt);
+    if d.len() == 0 { Seq::empty() } else { " = Field("@ + join(d, ", "@) + ")"@ }
+}
